@@ -180,7 +180,7 @@ class C02(Sim):
             "non-trivial = >= 1 build and >= 1 observation or re-wrap of a mesh with at least edges")
     FAULT_KINDS = ["rewrap", "config_flip", "failed_attempt"]
     PROBES = ["invalid_edge_filtered", "dense_edge_attr", "sparse_edge_attr", "numpy_flavour", "tuple_flavour", "hex_cells", "tet_cells",
-              "declared_faces_on_volume", "polygon_face", "file_path", "from_arrays_path", "rewrap", "switch_off_build", "query_script", "2d_padded", "peek_dimensionality", "input_lists_reused", "two_stage_build", "first_attempt_raised", "first_attempt_accepted", "rewrap_with_more_edges", "face_with_repeated_vertex", "path_rewritten_between_loads", "obj_relative_interleaved"]
+              "declared_faces_on_volume", "polygon_face", "file_path", "from_arrays_path", "rewrap", "switch_off_build", "query_script", "2d_padded", "peek_dimensionality", "input_lists_reused", "two_stage_build", "first_attempt_raised", "first_attempt_accepted", "rewrap_with_more_edges", "face_with_repeated_vertex", "path_rewritten_between_loads", "obj_relative_interleaved", "obj_vertex_extras"]
     QUICK_RUNS = 4000
     THOROUGH_RUNS = 400000
     BLOCK = 40
@@ -264,7 +264,7 @@ class C02(Sim):
             fl = r.choice(cfg["flavours"]) if path in ("raw_class", "instanciate", "two_stage") else ("numpy" if path == "from_arrays" else "file")
             return {"c": "builder", "op": "build", "path": path, "flavour": fl, "slot": "m%d" % self.nbuild, "pad2d": r.chance(0.5),
                     "peek": r.choice([None, None, "early", "late"]), "reuse": r.chance(0.4),
-                    "retry": r.choice(["bad_edge", "config"]) if cfg["faults_on"] and r.chance(0.3) else None, "decoy": r.chance(0.3), "obj_style": r.choice([None, "relative"])}
+                    "retry": r.choice(["bad_edge", "config"]) if cfg["faults_on"] and r.chance(0.3) else None, "decoy": r.chance(0.3), "obj_style": r.choice([None, "relative"]), "obj_vextra": r.choice([None, None, "w", "rgb"])}
         slot = r.choice(sorted(self.slots))
         if c == "rewrapper":
             if r.chance(0.25) and hasattr(self.slots[slot].mesh, "edges"):
@@ -413,6 +413,11 @@ class C02(Sim):
             self.probes["obj_relative_interleaved"] += 1
         else:
             self.fs.files[fname] = writer(s).encode()
+        if path == "file_obj" and ev.get("obj_vextra"):
+            import re
+            # `v x y z w` / `v x y z r g b`: more numbers than three on a vertex line (weights, colours); the vertex is (x, y, z)
+            self.fs.files[fname] = re.sub(rb"(?m)^(v[ \t]+\S+[ \t]+\S+[ \t]+\S+)[ \t]*$", rb"\1 1.0" if ev["obj_vextra"] == "w" else rb"\1 0.5 0.25 1", self.fs.files[fname])
+            self.probes["obj_vertex_extras"] += 1
         return call(M.mesh.load, fname)
 
     # ------------------------------------------------------------------ observation against the normal form
